@@ -6,6 +6,8 @@ import (
 	"encoding/binary"
 	"encoding/json"
 	"fmt"
+	"github.com/privacybydesign/gabi/safeprime"
+	"github.com/privacybydesign/gabi/zkproof"
 	"math/rand/v2"
 	"os"
 	"os/exec"
@@ -699,6 +701,54 @@ func c20W4(sum *c20Summary, rng *rand.Rand, g, rounds int, viol func(string, str
 			close(start)
 			wg2.Wait()
 			sum.Proofs += 3
+		}
+		// the group description used by key proofs, asked for by many goroutines for several primes at once: every answer is the
+		// group of the prime that was asked for (as computed alone beforehand)
+		{
+			type gref struct{ p, order, gg, hh *big.Int }
+			var refs []gref
+			for _, bits := range []int{72, 80, 96} {
+				sp, err := safeprime.Generate(bits, nil)
+				if err != nil {
+					continue
+				}
+				gr, ok := zkproof.BuildGroup(sp)
+				if !ok {
+					continue
+				}
+				refs = append(refs, gref{sp, cp(gr.Order), cp(gr.G), cp(gr.H)})
+			}
+			for _, gor := range []int{4, 8, 16} {
+				start := make(chan struct{})
+				var wg3 sync.WaitGroup
+				for w := 0; w < gor && len(refs) >= 2; w++ {
+					wg3.Add(1)
+					go func(w int) {
+						defer wg3.Done()
+						<-start
+						for it := 0; it < 1200; it++ {
+							// mostly one prime per goroutine (neighbours ask for different ones), now and then another
+							ref := refs[w%len(refs)]
+							if it%16 == 15 {
+								ref = refs[(w+it)%len(refs)]
+							}
+							gr, ok := zkproof.BuildGroup(cp(ref.p))
+							if !ok || gr.P == nil || gr.P.Cmp(ref.p) != 0 || gr.Order.Cmp(ref.order) != 0 || gr.G.Cmp(ref.gg) != 0 || gr.H.Cmp(ref.hh) != 0 {
+								viol("C20/concurrent-group-differs", fmt.Sprintf("BuildGroup for a %d-bit prime returned ok=%v and another group than when computed alone", ref.p.BitLen(), ok))
+								return
+							}
+							var e big.Int
+							if !gr.Exp(&e, "g", bi(5), nil) || e.Cmp(new(big.Int).Exp(ref.gg, bi(5), ref.p)) != 0 {
+								viol("C20/concurrent-group-differs", "Group.Exp on a concurrently built group gives another value than g^5 mod p")
+								return
+							}
+						}
+					}(w)
+				}
+				close(start)
+				wg3.Wait()
+			}
+			sum.Proofs += 8
 		}
 		sum.Signatures = append(sum.Signatures, fmt.Sprintf("round%d", round))
 		sum.Proofs += g
